@@ -203,10 +203,10 @@ func main() {
 			"canonical_cases|freealloc-tmagic":                                            6,
 			"canonical_cases|freealloc-dma-buddy":                                         1,
 			"frees_of_kernel_written_buffers|emu":                                         int64(c.N(60, 3000)),
-			"frees_of_kernel_written_buffers|dma":                                         int64(c.N(40, 500)),
+			"frees_of_kernel_written_buffers|dma":                                         int64(c.N(40, 250)),
 			"frees|tmagic":                                                                int64(c.N(15, 60)),
 			"h2d_into_new_buffers_before_the_next_launch|emu":                             int64(c.N(30, 1500)),
-			"h2d_into_new_buffers_before_the_next_launch|dma":                             int64(c.N(20, 300)),
+			"h2d_into_new_buffers_before_the_next_launch|dma":                             int64(c.N(20, 120)),
 			"reallocations_receiving_a_previously_used_frame|dma":                         1,
 			"reallocations_receiving_a_previously_used_frame|emu":                         1,
 			"reallocations_receiving_a_previously_used_frame|tmagic":                      1,
